@@ -58,6 +58,7 @@ def ll_corner(x):
 
 
 TARGETS = {
+    "interior4": dict(like=ll_interior, logz=4 * math.log(math.sqrt(2 * math.pi) * S / 10.0), mean1=0.0, var1=S ** 2, kw={}, n_dim=4),
     "corner_periodic": dict(like=ll_corner, logz=math.log(2 * math.pi * S ** 2 / 400.0), mean1=None, var1=None, kw={"periodic": [0, 1]}),
     "corner_reflective": dict(like=ll_corner, logz=math.log(2 * math.pi * S ** 2 / 400.0), mean1=None, var1=None, kw={"reflective": [0, 1]}),
     "bimodal": dict(like=ll_bimodal, logz=math.log(2 * math.pi * 0.4 ** 2 / 100.0), mean1=0.0, var1=0.4 ** 2, kw={}),
@@ -80,7 +81,7 @@ def one(a):
     kw = dict(cfg)
     kw.update(T["kw"])
     try:
-        s = Sampler(pt, T["like"], n_dim=2, n_particles=npart, random_state=seed, **kw)
+        s = Sampler(pt, T["like"], n_dim=T.get("n_dim", 2), n_particles=npart, random_state=seed, **kw)
         s.run(n_total=4 * npart, progress=False)
         x, w, l = s.posterior(trim_importance_weights=False)
         m = np.sum(w[:, None] * x, axis=0)
